@@ -832,6 +832,9 @@ def create_logger(id_, parameters, arg):
 
     parameters2 = list(filter(lambda x: 'tree.ratios' != x, parameters))
     models = ['joint', 'like', 'prior']
+    if arg.poisson:
+        # the Poisson joint has no separate prior model
+        models.remove('prior')
     if arg.coalescent:
         models.append('coalescent')
         if arg.coalescent in COALESCENT_PIECEWISE:
@@ -864,6 +867,9 @@ def create_sampler(id_, var_id, parameters, arg):
 
     parameters2 = list(filter(lambda x: 'tree.ratios' != x, parameters))
     models = ['joint.jacobian', 'joint', 'like', 'prior', var_id]
+    if arg.poisson:
+        # the Poisson joint has no separate prior model
+        models.remove('prior')
 
     if arg.location_regex:
         models.append('like.location')
@@ -1012,37 +1018,39 @@ def build_advi(arg):
         parameters.append("bdsk.rho")
         parameters.append("bdsk.origin")
 
-    if arg.model == 'SRD06':
-        for tag in ('12', '3'):
-            parameters.extend(
-                [f"substmodel.{tag}.kappa", f"substmodel.{tag}.frequencies"]
-            )
-    elif arg.model == "SYM":
-        parameters.append("substmodel.rates")
-    elif arg.model == 'GTR':
-        parameters.extend(["substmodel.rates", "substmodel.frequencies"])
-    elif arg.model == 'K80':
-        parameters.append("substmodel.kappa")
-    elif arg.model == 'HKY':
-        parameters.extend(["substmodel.kappa", "substmodel.frequencies"])
-    elif arg.model == 'MG94':
-        parameters.extend([f"substmodel.{p}" for p in ("kappa", "alpha", "beta")])
-
-    if arg.model == 'SRD06':
-        parameters.append("srd06.mus")
-
-    if arg.categories > 1:
+    # the Poisson likelihood has no substitution or site model
+    if not arg.poisson:
         if arg.model == 'SRD06':
             for tag in ('12', '3'):
-                parameters.append(f"sitemodel.{tag}.shape")
-        else:
-            parameters.append("sitemodel.shape")
-    if arg.invariant:
+                parameters.extend(
+                    [f"substmodel.{tag}.kappa", f"substmodel.{tag}.frequencies"]
+                )
+        elif arg.model == "SYM":
+            parameters.append("substmodel.rates")
+        elif arg.model == 'GTR':
+            parameters.extend(["substmodel.rates", "substmodel.frequencies"])
+        elif arg.model == 'K80':
+            parameters.append("substmodel.kappa")
+        elif arg.model == 'HKY':
+            parameters.extend(["substmodel.kappa", "substmodel.frequencies"])
+        elif arg.model == 'MG94':
+            parameters.extend([f"substmodel.{p}" for p in ("kappa", "alpha", "beta")])
+
         if arg.model == 'SRD06':
-            for tag in ('12', '3'):
-                parameters.append(f"sitemodel.{tag}.pinv")
-        else:
-            parameters.append("sitemodel.pinv")
+            parameters.append("srd06.mus")
+
+        if arg.categories > 1:
+            if arg.model == 'SRD06':
+                for tag in ('12', '3'):
+                    parameters.append(f"sitemodel.{tag}.shape")
+            else:
+                parameters.append("sitemodel.shape")
+        if arg.invariant:
+            if arg.model == 'SRD06':
+                for tag in ('12', '3'):
+                    parameters.append(f"sitemodel.{tag}.pinv")
+            else:
+                parameters.append("sitemodel.pinv")
 
     if arg.samples > 0:
         json_list.append(create_sampler('sampler', 'variational', parameters, arg))
